@@ -84,6 +84,7 @@ def applyCfg (d : DS) (item : String) : DS :=
   | "caller" => { d with base := { d.base with callerMode := n != 0 } }
   | "minsize" => { d with base := { d.base with minSize := n } }
   | "enabled" => { d with base := { d.base with enabled0 := n != 0 } }
+  | "f7fixed" => { d with base := { d.base with f7fixed := n != 0 } }   -- default 1 (repair of F-C07-TRACEOFF-FLUSH)
   | "watchcpu" => { d with watchCpu := n != 0 }
   | "vars" =>   -- vars=0,1 : indices of the watched driver variables (sizes 8, 4, 1)
     let ks := (v.splitOn ",").filterMap (·.toNat?)
